@@ -287,6 +287,14 @@ def check_seq(case):
         except RuntimeError as e:
             if 'Cauchy point' in str(e):
                 return Result(fails, classes=sorted(classes | {'cauchy-point-failure'}), inconclusive='no-cauchy-point', nontrivial=warm_used)
+            if not pd:
+                classes.add('singular-hessian-at-start')
+                break
+            raise
+        except Exception:
+            if not pd:                                          # outside the stated domain: nothing claimed
+                classes.add('singular-hessian-at-start')
+                break
             raise
         data = dict(step=k, driver=stp['driver'], warm=stp['warm'], upd=stp['upd'])
         if not (onp.array_equal(onp.asarray(o.p[0]), onp.asarray(p_new[0])) and onp.array_equal(onp.asarray(o.p[2]), onp.asarray(p_new[2]))):
